@@ -794,8 +794,8 @@ func (obj *SparseReal32MatrixJointIterator) Index() (int, int) {
   return obj.i, obj.j
 }
 func (obj *SparseReal32MatrixJointIterator) Ok() bool {
-  return !(obj.s1 == nil || obj.s1.GetFloat32() == float32(0)) ||
-         !(obj.s2 == nil || obj.s2.GetFloat32() == float32(0))
+  return !(obj.s1 == nil || isNullScalar(obj.s1)) ||
+         !(obj.s2 == nil || isNullScalar(obj.s2))
 }
 func (obj *SparseReal32MatrixJointIterator) Next() {
 next:
@@ -882,9 +882,9 @@ func (obj *SparseReal32MatrixJoint3Iterator) Index() (int, int) {
   return obj.i, obj.j
 }
 func (obj *SparseReal32MatrixJoint3Iterator) Ok() bool {
-  return !(obj.s1 == nil || obj.s1.GetFloat32() == 0.0) ||
-         !(obj.s2 == nil || obj.s2.GetFloat32() == 0.0) ||
-         !(obj.s3 == nil || obj.s3.GetFloat32() == 0.0)
+  return !(obj.s1 == nil || isNullScalar(obj.s1)) ||
+         !(obj.s2 == nil || isNullScalar(obj.s2)) ||
+         !(obj.s3 == nil || isNullScalar(obj.s3))
 }
 func (obj *SparseReal32MatrixJoint3Iterator) Next() {
 next:
